@@ -55,7 +55,7 @@ def chars(s):
 
 def history(rnd, prog, profile, length):
     """a list of op dicts for inkdrive"""
-    knots = [k for k, v in prog["prog"]["knots"].items() if v["kind"] == "knot"]
+    knots = [k for k, v in prog["prog"]["knots"].items() if v["kind"] == "knot" and not v["params"]]
     ints = [g["n"] for g in prog["prog"]["globals"] if g["v"]["t"] == "int"]
     ops = [{"op": "new"}]
     weights = {"cont": 10, "choose": 4, "set_var": 1.5, "choose_path": 1.0}
@@ -170,7 +170,7 @@ def history(rnd, prog, profile, length):
 
 def alphabet(prog):
     """the calls of the exhaustive small-scope histories: valid and invalid forms of every kind of call"""
-    knots = [k for k, v in prog["prog"]["knots"].items() if v["kind"] == "knot"]
+    knots = [k for k, v in prog["prog"]["knots"].items() if v["kind"] == "knot" and not v["params"]]
     ints = [g["n"] for g in prog["prog"]["globals"] if g["v"]["t"] == "int"]
     funcs = [(k, len(v["params"])) for k, v in prog["prog"]["knots"].items() if v["kind"] == "function"]
     k1 = knots[1] if len(knots) > 1 else knots[0]
